@@ -274,6 +274,27 @@ func drawHist(t *rapid.T) Hist {
 			again.Class, again.Verdict = "valid", ref.Must
 			h.Steps = append(h.Steps, again)
 		}
+		// ... or tries to change the same settings once more, this time with one unworkable value among them:
+		// the refusal must leave them at what the previous accepted update set, not at something older
+		if u.Class == "valid" && rapid.IntRange(0, 2).Draw(t, "then-poisoned") == 0 {
+			flat := map[string]any{}
+			addressed(u.Doc, "", flat)
+			d := cfgkit.Doc{}
+			for p := range flat {
+				if gen, ok := cfgkit.Valid[p]; ok {
+					cfgkit.Set(d, p, gen(t))
+				}
+			}
+			var bs []bad
+			for _, b := range boundary {
+				if b.v == ref.MustNot {
+					bs = append(bs, b)
+				}
+			}
+			b := rapid.SampledFrom(bs).Draw(t, "poison")
+			cfgkit.Set(d, b.path, b.value)
+			h.Steps = append(h.Steps, Upd{Doc: d, Class: "multi-key+" + b.class, Verdict: ref.MustNot, FaultAt: -1})
+		}
 	}
 	return h
 }
